@@ -127,13 +127,59 @@ func (x *Exec) libModel(st *State, in ssa.Instruction, callee *ssa.Function, nam
 	case "github.com/tendermint/tendermint/crypto/tmhash.Sum", "github.com/tendermint/tendermint/crypto/tmhash.SumTruncated":
 		fn := "hash_" + smtName(callee.Name())
 		t := fmt.Sprintf("(%s %s)", fn, args[0].Term)
-		x.globalDecl(fn, fmt.Sprintf("(declare-fun %s (Int) Int)", fn))
 		if callee.Name() == "Sum" {
 			st.assume(fmt.Sprintf("(= (blen %s) 32)", t))
 		} else {
 			st.assume(fmt.Sprintf("(= (blen %s) 20)", t))
 		}
 		return ret(leaf(rt, t))
+	case "crypto/sha256.Sum256":
+		t := fmt.Sprintf("(hash_sha256 %s)", args[0].Term)
+		st.assume(fmt.Sprintf("(= (blen %s) 32)", t))
+		return ret(leaf(rt, t))
+	case "(*sync.Map).Store":
+		x.syncMapStore(st, args[0], args[1], args[2])
+		k(st, nil)
+		return true
+	case "(*sync.Map).Load":
+		val, ok := x.syncMapLoad(st, args[0], args[1])
+		k(st, []*Value{val, boolLeaf(ok)})
+		return true
+	case "(*sync.Map).Delete":
+		x.syncMapDelete(st, args[0], args[1])
+		k(st, nil)
+		return true
+	case "(*sync.Map).LoadOrStore":
+		val, ok := x.syncMapLoad(st, args[0], args[1])
+		// stores when absent
+		st2 := st
+		mref, kt := x.syncMapRefKey(st2, args[0], args[1])
+		d := x.heapArr(st2, "MD|sync.Map", "Bool")
+		vt := x.heapArr(st2, "MV|sync.Map|$tag", "Int")
+		vv := x.heapArr(st2, "MV|sync.Map|$val", "Int")
+		x.setHeapArr(st2, "MD|sync.Map", "Bool", fmt.Sprintf("(store %s %s (store (select %s %s) %s true))", d, mref, d, mref, kt))
+		x.setHeapArr(st2, "MV|sync.Map|$tag", "Int", fmt.Sprintf("(store %s %s (store (select %s %s) %s (ite %s (select (select %s %s) %s) %s)))", vt, mref, vt, mref, kt, ok, vt, mref, kt, args[2].Fs[0].Term))
+		x.setHeapArr(st2, "MV|sync.Map|$val", "Int", fmt.Sprintf("(store %s %s (store (select %s %s) %s (ite %s (select (select %s %s) %s) %s)))", vv, mref, vv, mref, kt, ok, vv, mref, kt, args[2].Fs[1].Term))
+		res := &Value{K: KIface, T: val.T, Fs: []*Value{intLeaf(fmt.Sprintf("(ite %s %s %s)", ok, val.Fs[0].Term, args[2].Fs[0].Term)), intLeaf(fmt.Sprintf("(ite %s %s %s)", ok, val.Fs[1].Term, args[2].Fs[1].Term))}}
+		k(st, []*Value{res, boolLeaf(ok)})
+		return true
+	case "(*sync.Map).Range":
+		x.note("sync.Map.Range: the map's contents are havocked (callback not analysed)")
+		x.arrSort["MD|sync.Map"] = "Bool"
+		x.havocHeapArr(st, "MD|sync.Map")
+		k(st, nil)
+		return true
+	case "math/bits.Len", "math/bits.Len64":
+		n := x.fresh(st, "bitlen", "Int")
+		a := args[0].Term
+		st.assume(fmt.Sprintf("(and (<= 0 %s) (<= %s 64))", n, n))
+		st.assume(fmt.Sprintf("(= (= %s 0) (= %s 0))", a, n))
+		st.assume(fmt.Sprintf("(=> (> %s 0) (and (<= (pow2i (- %s 1)) %s) (< %s (pow2i %s))))", a, n, a, a, n))
+		st.assume(fmt.Sprintf("(=> (< %s 9223372036854775808) (<= %s 63))", a, n))
+		st.assume(fmt.Sprintf("(=> (>= %s 1) (= (pow2i %s) (* 2 (pow2i (- %s 1)))))", n, n, n))
+		st.assume(fmt.Sprintf("(=> (>= %s 2) (= (pow2i (- %s 1)) (* 2 (pow2i (- %s 2)))))", n, n, n))
+		st.assume(fmt.Sprintf("(=> (>= %s 1) (> (pow2i (- %s 1)) 0))", n, n))
+		return ret(leaf(rt, n))
 	case "os.Exit", "github.com/tendermint/tendermint/libs/os.Exit", "log.Fatal", "log.Fatalf":
 		x.pathDone()
 		return true
@@ -185,4 +231,39 @@ func (x *Exec) ifaceModel(st *State, in ssa.Instruction, c *ssa.CallCommon, full
 		return true
 	}
 	return false
+}
+
+func (x *Exec) syncMapRefKey(st *State, m, key *Value) (string, string) {
+	mref := x.lockKey(m)
+	kt, _ := x.mapKeyTerm(st, key)
+	return mref, kt
+}
+
+func (x *Exec) syncMapStore(st *State, m, key, val *Value) {
+	mref, kt := x.syncMapRefKey(st, m, key)
+	d := x.heapArr(st, "MD|sync.Map", "Bool")
+	x.setHeapArr(st, "MD|sync.Map", "Bool", fmt.Sprintf("(store %s %s (store (select %s %s) %s true))", d, mref, d, mref, kt))
+	for i, suffix := range []string{"$tag", "$val"} {
+		a := x.heapArr(st, "MV|sync.Map|"+suffix, "Int")
+		x.setHeapArr(st, "MV|sync.Map|"+suffix, "Int", fmt.Sprintf("(store %s %s (store (select %s %s) %s %s))", a, mref, a, mref, kt, val.Fs[i].Term))
+	}
+}
+
+func (x *Exec) syncMapLoad(st *State, m, key *Value) (*Value, string) {
+	mref, kt := x.syncMapRefKey(st, m, key)
+	d := x.heapArr(st, "MD|sync.Map", "Bool")
+	ok := fmt.Sprintf("(select (select %s %s) %s)", d, mref, kt)
+	at := x.heapArr(st, "MV|sync.Map|$tag", "Int")
+	av := x.heapArr(st, "MV|sync.Map|$val", "Int")
+	anyT := types.NewInterfaceType(nil, nil)
+	val := &Value{K: KIface, T: anyT, Fs: []*Value{
+		intLeaf(fmt.Sprintf("(ite %s (select (select %s %s) %s) 0)", ok, at, mref, kt)),
+		intLeaf(fmt.Sprintf("(ite %s (select (select %s %s) %s) 0)", ok, av, mref, kt))}}
+	return val, ok
+}
+
+func (x *Exec) syncMapDelete(st *State, m, key *Value) {
+	mref, kt := x.syncMapRefKey(st, m, key)
+	d := x.heapArr(st, "MD|sync.Map", "Bool")
+	x.setHeapArr(st, "MD|sync.Map", "Bool", fmt.Sprintf("(store %s %s (store (select %s %s) %s false))", d, mref, d, mref, kt))
 }
